@@ -31,7 +31,15 @@ def extra_locals(model):
       merged.append(core.norm(n.args[0]))
   alias = None
   for n in ast.walk(gel.node):
-    if isinstance(n, ast.Dict) and len(n.keys) == 1 and isinstance(
-        n.keys[0], ast.Constant) and core.norm(n.values[0]) == modvar:
-      alias = n.keys[0].value
+    if isinstance(n, ast.Dict) and len(n.keys) == 1 and isinstance(n.keys[0], ast.Constant):
+      v = n.values[0]
+      same = core.norm(v) == modvar
+      if not same and isinstance(v, ast.Name):
+        # a copy of the module variable (e.g. the result slot of an inlined helper)
+        from sa import tpl
+        ex = tpl.expand(gel, v, n)
+        same = isinstance(ex, ast.Call) and core.dotted(ex.func) in (
+            'importlib.util.module_from_spec', 'types.ModuleType')
+      if same:
+        alias = n.keys[0].value
   return dict(alias=alias, explicit=explicit, merged=merged, func=gel)
